@@ -1070,7 +1070,9 @@ def r_surface(ctx: Ctx, rule: str):
         sd = ctx.distinct_sites(ctx.nodes(f, lambda n: n.op == "call" and isinstance(n.ast.func, ast.Attribute) and n.ast.func.attr == "set_defaults"))
         for s in sd:
             t = ast.unparse(s.ast).replace(" ", "")
-            ok = t.endswith(f".set_defaults(**{{member_arg_name:{mv}}})")
+            ok = t.endswith(f".set_defaults(**{{member_arg_name:{mv}}})") or (
+                not s.ast.args and len(s.ast.keywords) == 1 and s.ast.keywords[0].arg is None
+                and ctx.vals.canon(f, s.ast.keywords[0].value).replace(" ", "") == f"{{member_arg_name:{mv}}}")
             rep.ob(rule, "the parsed namespace carries the member itself under the command key", ok, node=s)
             # reached for both kinds
             for c in fc + pc:
